@@ -45,11 +45,28 @@ func ruleTreeAlias(c *Ctx, r *R) {
 			continue
 		}
 		st := obj.Type().Underlying().(*types.Struct)
+		// a field that is itself a struct of reference-typed fields only (Set holding a Map by value) is as good as those
+		var refOnly func(t types.Type, d int) bool
+		refOnly = func(t types.Type, d int) bool {
+			switch u := t.Underlying().(type) {
+			case *types.Pointer, *types.Map, *types.Chan, *types.Signature:
+				return true
+			case *types.Struct:
+				if d > 3 || u.NumFields() == 0 {
+					return false
+				}
+				for i := 0; i < u.NumFields(); i++ {
+					if !refOnly(u.Field(i).Type(), d+1) {
+						return false
+					}
+				}
+				return true
+			}
+			return false
+		}
 		good := st.NumFields() >= 1
 		for i := 0; i < st.NumFields(); i++ {
-			switch st.Field(i).Type().Underlying().(type) {
-			case *types.Pointer, *types.Map, *types.Chan, *types.Signature:
-			default:
+			if !refOnly(st.Field(i).Type(), 0) {
 				good = false
 			}
 		}
@@ -178,7 +195,7 @@ func rulePutIsolation(c *Ctx, r *R) {
 							bad = "calls " + fname(cal) + ": " + sub
 						}
 					}
-				} else if _, isB := x.Call.Value.(*ssa.Builtin); !isB && !strings.HasSuffix(path(x.Call.Value), ".compare") {
+				} else if _, isB := x.Call.Value.(*ssa.Builtin); !isB && !isComparatorValue(x.Call.Value) {
 					bad = f.Name() + " calls " + path(x.Call.Value)
 				}
 			}
@@ -390,10 +407,8 @@ func ruleTreeBounds(c *Ctx, r *R) {
 				if len(x.Results) == 1 && len(d.calls) == 0 || (len(x.Results) == 1) {
 					// (the iterator may have been handed to a helper as a parameter: t.stopAbove(c.Forward(), upper))
 					all := false
-					if call, ok := resolveVal(argOf(resolveVal(returnedValue(x, 0)), d.calls)).(*ssa.Call); ok {
-						if cal := staticCallee(&call.Call); cal != nil && fname(cal) == sp.iter {
-							all = true
-						}
+					if isDirIterator(c, resolveVal(argOf(resolveVal(returnedValue(x, 0)), d.calls)), sp.iter) {
+						all = true
 					}
 					if all {
 						if k, ok := kindOf(d, farP); ok {
@@ -465,7 +480,7 @@ func ruleTreeBounds(c *Ctx, r *R) {
 			}
 			why := ""
 			// first argument: the cursor's iterator in the right direction
-			if ic, ok := resolveVal(argOf(resolveVal(call.Call.Args[0]), ws[0].calls)).(*ssa.Call); !ok || staticCallee(&ic.Call) == nil || staticCallee(&ic.Call).Name() != sp.iter {
+			if !isDirIterator(c, resolveVal(argOf(resolveVal(call.Call.Args[0]), ws[0].calls)), sp.iter) {
 				why = "the iterated sequence is not c." + sp.iter + "()"
 			}
 			pred, recv := funcAndReceiver(call.Call.Args[1])
@@ -696,19 +711,18 @@ func ruleKVLockstep(c *Ctx, r *R) {
 		if len(kPlain) == 0 && len(vPlain) == 0 {
 			continue
 		}
-		// exception: Put's overwrite branch writes the value only
-		if name == "btree.Put" {
-			var vv []string
-			for _, a := range vPlain {
-				if strings.Contains(a, "inNode ⊢ curr.values[idx] = v") {
-					r.excepted("tree."+name+"|overwrite-value-only", fd.Pos(), "Put's overwrite branch stores the new value under the existing key (decided by C01.put-effect-isolation)")
-					continue
-				}
-				vv = append(vv, a)
-			}
-			vPlain = vv
+		// exception: the overwrite of the value of a key that is already there writes the value only - a store of a parameter into
+		// X.values[idx] under the `found` result of the very searchNode(k, X) call that produced idx (Put, or the worker Put
+		// delegates to); counted on the SSA form, matched against the value writes that have no key twin
+		nOverwrite := 0
+		if sfn := c.fn(treeRel + "." + name); sfn != nil {
+			nOverwrite = overwriteStores(sfn)
 		}
 		oa, ob := multisetDiff(kDual, vPlain)
+		if len(oa) == 0 && len(ob) > 0 && len(ob) == nOverwrite {
+			r.excepted("tree."+name+"|overwrite-value-only", fd.Pos(), "the overwrite branch stores the new value under the existing key (decided by C01.put-effect-isolation)")
+			ob = nil
+		}
 		for i := range kPlain {
 			_ = i
 		}
@@ -882,4 +896,90 @@ func boundPredicate(pred *ssa.Function, recv ssa.Value, chain []*ssa.Call, farP 
 		why = "the predicate has no return"
 	}
 	return why
+}
+
+// isDirIterator: v is the cursor's iterator in direction dir ("Forward" / "Backward"): the result of c.Forward(), or an object
+// of the very type that method builds, built in place (fwd := &forwardIterator{c: t.Cursor()}; ...; var iter Iterator = fwd).
+func isDirIterator(c *Ctx, v ssa.Value, dir string) bool {
+	for {
+		switch x := v.(type) {
+		case *ssa.MakeInterface:
+			v = resolveVal(x.X)
+			continue
+		case *ssa.ChangeInterface:
+			v = resolveVal(x.X)
+			continue
+		}
+		break
+	}
+	if call, ok := v.(*ssa.Call); ok {
+		if cal := staticCallee(&call.Call); cal != nil && fname(cal) == dir {
+			return true
+		}
+		return false
+	}
+	al, ok := v.(*ssa.Alloc)
+	if !ok {
+		return false
+	}
+	m := cur(c, dir)
+	if m == nil || al.Parent() == m {
+		return false // (inside c.Forward() itself the object is what the call stands for)
+	}
+	built := returnedStruct(m)
+	return built != nil && types.Identical(origType(derefType(built.Type())), origType(derefType(al.Type())))
+}
+
+// overwriteStores counts the stores `X.values[idx] = param` of fn that are guarded by the found-result of the searchNode call
+// on X that produced idx.
+func overwriteStores(fn *ssa.Function) int {
+	n := 0
+	instrs(fn, func(b *ssa.BasicBlock, _ int, in ssa.Instruction) {
+		st, ok := in.(*ssa.Store)
+		if !ok {
+			return
+		}
+		if _, isParam := st.Val.(*ssa.Parameter); !isParam {
+			return
+		}
+		ia, ok := st.Addr.(*ssa.IndexAddr)
+		if !ok {
+			return
+		}
+		fa, ok := ia.X.(*ssa.FieldAddr)
+		if !ok || fieldName(fa.X.Type(), fa.Field) != "values" {
+			return
+		}
+		ex, ok := ia.Index.(*ssa.Extract)
+		if !ok || ex.Index != 0 {
+			return
+		}
+		call, ok := ex.Tuple.(*ssa.Call)
+		if !ok {
+			return
+		}
+		cal := staticCallee(&call.Call)
+		if cal == nil || fname(cal) != "searchNode" {
+			return
+		}
+		// the node searched is the node written
+		hit := false
+		for _, a := range call.Call.Args {
+			if a == fa.X {
+				hit = true
+			}
+		}
+		if !hit {
+			return
+		}
+		for _, g := range guardsOf(b) {
+			if v, val := g.boolVal(); val {
+				if fx, ok := v.(*ssa.Extract); ok && fx.Tuple == ex.Tuple && fx.Index == 1 {
+					n++
+					return
+				}
+			}
+		}
+	})
+	return n
 }
